@@ -10,6 +10,7 @@ structure Core (s : St) : Prop where
   fresh : ∀ i, s.nconn < i → (s.conns i).phase = .none
   nodup : s.list.Nodup
   bound : ∀ c, c ∈ s.list → c ≤ s.nconn
+  lnn : ∀ c, c ∈ s.list → (s.conns c).phase ≠ .none
 
 /-- no library bracket holds a reference -/
 def NB (s : St) : Prop := ∀ i, Brs (s.conns i) = (false, false, false)
@@ -23,11 +24,13 @@ theorem Core.exec {s : St} (h : Core s) (f : Nat) (call : Call) (hok : CallOk s 
     Core (exec f s call) ∧ Frame s (exec f s call) := by
   have hg := good_all f s call h.inv hok
   refine ⟨⟨hg.1, fun i hi => (hg.2 i).non (h.fresh i (by rw [exec_nconn] at hi; exact hi)),
-    h.nodup.sublist (exec_sublist f s call), fun c hc => ?_⟩, hg.2⟩
+    h.nodup.sublist (exec_sublist f s call), fun c hc => ?_,
+    fun c hc => (hg.2 c).nn (h.lnn c ((exec_sublist f s call).subset hc))⟩, hg.2⟩
   rw [exec_nconn]; exact h.bound c ((exec_sublist f s call).subset hc)
 
 theorem Core.updOf {s s' : St} {c : Nat} {k' : Conn} (h : Core s) (hu : UpdOf s c k' s')
-    (hn : s'.nconn = s.nconn) (hi' : Inv s') (hcn : (s.conns c).phase ≠ .none) : Core s' where
+    (hn : s'.nconn = s.nconn) (hi' : Inv s') (hcn : (s.conns c).phase ≠ .none)
+    (hnn : k'.phase ≠ .none) : Core s' where
   inv := hi'
   fresh i hi := by
     rw [hn] at hi
@@ -35,12 +38,18 @@ theorem Core.updOf {s s' : St} {c : Nat} {k' : Conn} (h : Core s) (hu : UpdOf s 
     rw [hu.other i this]; exact h.fresh i hi
   nodup := by rw [hu.list]; exact h.nodup
   bound x hx := by rw [hn]; rw [hu.list] at hx; exact h.bound x hx
+  lnn x hx := by
+    rw [hu.list] at hx
+    by_cases hc : x = c
+    · subst hc; rw [hu.at_c]; exact hnn
+    · rw [hu.other x hc]; exact h.lnn x hx
 
 theorem Core.same {s s' : St} (h : Core s) (hs : Same s s') (hn : s'.nconn = s.nconn) : Core s' where
   inv := hs.inv h.inv
   fresh i hi := by rw [hs.conns]; rw [hn] at hi; exact h.fresh i hi
   nodup := by rw [hs.list]; exact h.nodup
   bound x hx := by rw [hn]; rw [hs.list] at hx; exact h.bound x hx
+  lnn x hx := by rw [hs.conns]; rw [hs.list] at hx; exact h.lnn x hx
 
 theorem Frame.brs {s s' : St} (h : Frame s s') (i : Nat) : Brs (s'.conns i) = Brs (s.conns i) := (h i).brs
 
@@ -64,7 +73,7 @@ theorem brOpenD_ok {s : St} (h : Core s) (c : Nat) (hh : s.halt = false) (hnb : 
   rw [he]
   have hu := updOf_upd s c fun k => { k with rc := k.rc + 1, brDispatch := true }
   have hi' := hu.inv h.inv hp (fun hx => by rw [h1]; exact h.inv.lst c hx) (by rw [h2])
-  refine ⟨h.updOf hu rfl hi' hn, hh, fun i => ?_, by simp⟩
+  refine ⟨h.updOf hu rfl hi' hn (by rw [h1]; exact hn), hh, fun i => ?_, by simp⟩
   by_cases hc : i = c
   · subst hc
     have := hnb i; simp [Brs] at this
@@ -80,7 +89,7 @@ theorem brCloseD_ok {s : St} (h : Core s) (c : Nat) (hh : s.halt = false) (hb : 
   rw [he]
   have hu := updOf_upd s c fun k => { k with rc := k.rc - 1, brDispatch := false }
   have hi' := hu.inv h.inv hp (fun hx => by rw [h1]; exact h.inv.lst c hx) (by rw [h2])
-  refine ⟨h.updOf hu rfl hi' hn, ?_, fun i => ?_⟩
+  refine ⟨h.updOf hu rfl hi' hn (by rw [h1]; exact hn), ?_, fun i => ?_⟩
   · simp [CallOk]; exact ⟨hn, hd⟩
   · by_cases hc : i = c
     · subst hc; simp [Brs, hbc]
@@ -126,7 +135,7 @@ theorem dispatchMsg_ok {s : St} (h : Core s) (c : Nat) (hh : s.halt = false) (hn
   have hn1 : ((brOpenD s c).conns c).phase ≠ .none := by
     have hbr : ((brOpenD s c).conns c).brDispatch = true := by have := hb1 c; simp [Brs] at this; exact this.2.1
     exact ((h1.inv.conn c).bracket (Or.inr (Or.inl hbr))).2.1
-  have h2 : Core (p.2.cb .msg c 0) := h1.updOf hu (by simp [← hp]) hi2 hn1
+  have h2 : Core (p.2.cb .msg c 0) := h1.updOf hu (by simp [← hp]) hi2 hn1 (by rw [hphm]; exact hn1)
   have hb2 : BrD (p.2.cb .msg c 0) c := hb1.frame (hu.frame hfm)
   have he := h2.exec FUEL (.ops c p.1.ops) trivial
   have hb3 := hb2.frame he.2
